@@ -61,6 +61,25 @@ CHECKS = {
             "A probe backend counts the queries it receives: outside the closed box => default and 0 queries, inside => probe value and exactly 1 query, for "
             "coordinates at and adjacent to every bound, N,M in 1..4 (N != M), five coordinate types; plus array storage under ASan.",
             "Box membership evaluated in long double (exact for all generated values).", "DESIGN.md section 4 C11"),
+    "C12": ("exploration", SAN + "LeakSanitizer; ND-array model of a slot pool, compared after every operation",
+            "Every enabled history of length <= 3 (4 thorough) over a 32-letter alphabet of ownership operations on 2 slots for four type pairs, replayed from an "
+            "empty pool, plus seeded random histories of 200 operations on 4 slots; after every operation every live field equals its model at every cell through "
+            "fresh and long-lived views; ASan/LSan/UBSan watch the special members.",
+            "Self-move-assignment is treated as moved-from; moved-from fields are never viewed.", "DESIGN.md section 4 C12"),
+    "C13": ("exploration", "generate-compile-RUN of every API member per generated stack under ASan+UBSan, per-member compile attribution; compiler verdict for the ill-kinded catalogue",
+            "For each generated well-kinded stack every member the property lists is compiled and executed, and the resulting field checked against the reference "
+            "interpreter; compile failures are attributed to the member; the CUDA array backend is exercised under a host shim; a catalogue of ill-kinded compositions "
+            "(each with a well-kinded twin) must be rejected by the compiler.",
+            "The ill-kinded half has no execution to monitor (compiler exit status/diagnostics only); conversion demanded only for the family with converting constructors.",
+            "DESIGN.md section 4 C13"),
+    "C15": ("exploration", "ASan+UBSan+LSan and valgrind memcheck over the same seeded programs in four build configurations + cross-configuration result digests",
+            "Generated per-stack programs and random ownership histories run under {assertions on, -O2 NDEBUG} x {ASan+UBSan, memcheck}; any report/assertion is a "
+            "violation; digests of every value read must be identical across the four configurations.",
+            "UB without a dynamic footprint is out of reach; domain filter = reference interpreter.", "DESIGN.md section 4 C15"),
+    "C16": ("exploration", "ThreadSanitizer happens-before analysis + per-thread digests against a sequential execution",
+            "2..16 reader threads (shared and per-thread views) plus writers to disjoint cells of the same storage over every storage order and interpolator, with "
+            "random yields; TSan reports with covfie frames are violations; digests must equal the sequential run; overlap evidenced by a relaxed ticket counter.",
+            "Happens-before analysis of the executions performed, not schedule enumeration; OpenMP/CUDA runtimes out of reach.", "DESIGN.md section 4 C16"),
     "C14": ("exploration", SAN + "independent curve references (128-bit row-major, per-bit interleave, inverse Hilbert walk)",
             "Exhaustive over small bit-widths / extent boxes / Hilbert squares up to k, boundary bit patterns and random beyond; BMI2 (pdep) and portable paths "
             "compared with each other and with the reference in +bmi2 and plain builds; positions observed through the layers over identity<size1>.",
